@@ -112,22 +112,31 @@ func renderTuple(ts []J) string {
 func builtinsHandle(c map[string]J) map[string]J {
 	pred := c["pred"].(string)
 	pat := c["pat"].([]J)
-	var args []string
+	var args, iargs, earlier []string
 	var unboundPos []int
 	n := 0
 	for i, a := range pat {
 		if a.([]J)[0] == "v" {
 			unboundPos = append(unboundPos, i)
 			args = append(args, fmt.Sprintf("V%d", i+1))
+			iargs = append(iargs, fmt.Sprintf("V%d", i+1))
 		} else {
-			args = append(args, jt.Render(specValue(a, &n)))
+			t := jt.Render(specValue(a, &n))
+			args = append(args, t)
+			// the same value reached through a variable that an earlier goal of the query binds
+			earlier = append(earlier, fmt.Sprintf("B%d = %s", i+1, t))
+			iargs = append(iargs, fmt.Sprintf("B%d", i+1))
 		}
 	}
-	var q string
-	if pred == "univ" {
-		q = fmt.Sprintf("%s =.. %s.", args[0], args[1])
-	} else {
-		q = fmt.Sprintf("%s(%s).", pred, strings.Join(args, ", "))
+	goalOf := func(as []string) string {
+		if pred == "univ" {
+			return fmt.Sprintf("%s =.. %s", as[0], as[1])
+		}
+		return fmt.Sprintf("%s(%s)", pred, strings.Join(as, ", "))
+	}
+	q := goalOf(args) + "."
+	if opt("indirect") == "1" && len(earlier) > 0 {
+		q = strings.Join(earlier, ", ") + ", " + goalOf(iargs) + "."
 	}
 	infinite, _ := c["infinite"].(bool)
 	var want []string
